@@ -72,6 +72,18 @@ def main(argv):
         for qual in P.get('functions', []):
             rep = verify_function(a.repo, D.VERIF, qual, opts)
             D.process_function(res, rep, REGISTRY[qual], a.repo, findings, opts)
+        if P.get('crosscheck', True):
+            from .crosscheck import crosscheck
+            cc = []
+            for qual in P.get('crosscheck_functions', P.get('functions', [])):
+                try:
+                    r = crosscheck(a.repo, D.VERIF, qual, n=200 if a.tier == 'quick' else 2000, seed=seed)
+                except Exception as ex:
+                    r = {'function': qual, 'skipped': 'harness: %r' % (ex,)}
+                cc.append(r)
+                if r.get('n_disagreements'):
+                    res.crashes.append('semantics model disagrees with CPython on %s: %s' % (qual, json.dumps(r['disagreements'][:1], default=str)))
+            res.extra['cpython_crosscheck'] = cc
         if P.get('rxdiff'):
             run_rxdiff(res, a.repo, P['rxdiff'], 7 if a.tier == 'quick' else 9)
         for hook in P.get('extra', []):
